@@ -25,6 +25,7 @@ func rangeSource(v ssa.Value) (ssa.Value, int) {
 func checkC11(c *Ctx) {
 	c.Explanation = "Decides the structure of test-scope snapshots: (O1) for each of the four metric kinds the Snapshot callback ranges over the visited scope's map of that kind and stores one entry whose name is the visited scope's fullyQualifiedName(key), whose tags are a fresh map filled from the visited scope's tags, whose value comes from the snapshot method of the element being visited, under the key KeyForPrefixedStringMap(that name, those tags), into a map of a freshly created snapshot; every map/slice stored into a snapshot struct is fresh (independent copy); (O2) the point-in-time reads: counter = Load(curr) - Load(prev), gauge = Float64frombits(Load(curr)), timer = copy of the values into a fresh slice of the same length under the read lock, histogram maps buckets[i]'s bound of the matching kind to samples[i]'s count for the same i and is nil for the other kind; (O3) each per-kind walk and read holds that kind's lock (field discipline over package tally); (O4) a closed test scope found in the registry is returned as is: its metrics are cleared only on the not-a-test-scope edge, and children inherit the test flag."
 	c.Explanation += " Added later: the histogram a snapshot walks has the bounds it was asked for (cache hits validated element-wise) and keeps them (shared with C03 / C20)."
+	c.Explanation += " Added by round 8: (O1 visits-registered-scopes) ForEachScope calls its callback only with entries of a range over a shard map; (O2 placed-by-search, shared with C03) one search over the histogram's own bounds and one increment per sample."
 	c.NotDecided = []string{"equality with a reference tally for arbitrary histories"}
 	snapFn := c.fn("", "scope", "Snapshot")
 	fqn := c.fn("", "scope", "fullyQualifiedName")
